@@ -15,7 +15,8 @@ RULE = ("(a) for base runs with T <= 6 (quick) / 8 (thorough) trials: ALL compos
         "Solve (2^T - 1 call patterns per scenario) must reproduce the plain Solve log bitwise; (b) random compositions, incl. zero-length batches and "
         "overshoot beyond the stop point (the log must extend the base log and Solve must add nothing), on runs of up to 1500 trials; (c) every run is "
         "repeated in-process, a second Solve must evaluate nothing in the global phase; (d) selected scenarios are re-run in fresh interpreters with "
-        "different PYTHONHASHSEED. Non-trivial: a composition with >= 2 batches or a repeat; distinct = (scenario, composition).")
+        "different PYTHONHASHSEED. Non-trivial: a composition with >= 2 batches or a repeat; distinct = (scenario, composition)."
+       ' (e) one shipped problem object serves four Solvers (refining, batched) and a fresh object a fifth: one evaluation log; (f) 2300..3400 single steps against a few long batches.')
 ASSUMPTIONS = ["logs are compared bitwise on points, values and order", "refineSolution=False except in a few random cases where only the global-phase log is compared"]
 CHUNK = 1
 
